@@ -382,7 +382,7 @@ def CommitFeasibleP (r : CHPRP) (on : List Bool) : Prop :=
 theorem b2r_of_01 (v : Rat) (h : v = 0 ∨ v = 1) : v = b2r (decide (v = 1)) := by
   rcases h with h | h <;> subst h <;> simp [b2r]
 
-theorem flagOK_start (p : UCP) (T : Nat) (on st sh : Nat → Bool) (h : ∀ t, t < T → FlagOK p T on st sh t) :
+theorem flagOK_start (p : UCP) (T : Nat) (on st sh : Nat → Bool) (hT : 0 < T) (h : ∀ t, t < T → FlagOK p T on st sh t) :
     (∀ t, t + 1 < T → on (t+1) = true → on t = false → st (t+1) = true) ∧ (p.tar = 0 → st 0 = on 0) := by
   constructor
   · intro t ht h1 h0
@@ -390,11 +390,9 @@ theorem flagOK_start (p : UCP) (T : Nat) (on st sh : Nat → Bool) (h : ∀ t, t
     · rw [e]; simp [startOf, h1, h0]
     · exact e
   · intro h0
-    by_cases hT : 0 < T
-    · rcases h 0 hT with ⟨e, _⟩ | ⟨e, _⟩
-      · rw [e]; simp [startOf, h0]
-      · omega
-    · sorry
+    rcases h 0 hT with ⟨e, _⟩ | ⟨e, _⟩
+    · rw [e]; simp [startOf, h0]
+    · omega
 
 theorem commit_feasibleP_imp_spec (r : CHPRP) (hwf : CommitWFP r) (on : List Bool) (hlen : on.length = r.core.T) :
     CommitFeasibleP r on → MinUpDown (ucp r.core) on := by
@@ -411,7 +409,7 @@ theorem commit_feasibleP_imp_spec (r : CHPRP) (hwf : CommitWFP r) (on : List Boo
   have hrowsD : ∀ row ∈ r.core.downtimeRows, row.Sat x := fun row h => hrows row (by simp [commitRowsP, h])
   have hF := (P_flags r x (fn on) stf shf hwf hon' hst hsh).1 ⟨hrowsF, hbst, hbsh⟩
   have hOK := (flagsF_iff (ucp r.core) r.core.T (fn on) stf shf hT).1 hF
-  obtain ⟨c1, c2⟩ := flagOK_start (ucp r.core) r.core.T (fn on) stf shf hOK
+  obtain ⟨c1, c2⟩ := flagOK_start (ucp r.core) r.core.T (fn on) stf shf hT hOK
   have c3 := (CHPCommit.P_run r.core x (fn on) stf hwf.hst hon' hst).1 hrowsR
   obtain ⟨c6, c7⟩ := (CHPCommit.P_down r.core x (fn on) hon').1 hrowsD
   have hbon' : ∀ t, t < r.core.T → r.core.lower.getD (r.core.layout.on t) 0 ≤ x (r.core.layout.on t) ∧
@@ -478,5 +476,345 @@ theorem spec_imp_commit_feasibleP (r : CHPRP) (hwf : CommitWFP r) (on : List Boo
 theorem commit_rows_iff_spec_prof (r : CHPRP) (hwf : CommitWFP r) (on : List Bool) (hlen : on.length = r.core.T) :
     CommitFeasibleP r on ↔ MinUpDown (ucp r.core) on :=
   ⟨commit_feasibleP_imp_spec r hwf on hlen, spec_imp_commit_feasibleP r hwf on hlen⟩
+
+/-! ### the same on the values of an assignment -/
+
+/-- the on, start and shutdown variables of all steps have value 0 or 1 -/
+def Binary (r : CHPRP) (x : Vec) : Prop :=
+  ∀ t, t < r.core.T → (x (r.core.layout.on t) = 0 ∨ x (r.core.layout.on t) = 1) ∧
+    (x (r.core.layout.start t) = 0 ∨ x (r.core.layout.start t) = 1) ∧ (x (r.shut t) = 0 ∨ x (r.shut t) = 1)
+
+/-- the unit switches on at step `t`: off → on, at step 0 "was off (`time_already_running = 0`) and is on" -/
+def StartsAt (r : CHPRP) (x : Vec) (t : Nat) : Prop :=
+  if t = 0 then r.core.tar = 0 ∧ x (r.core.layout.on 0) = 1
+  else x (r.core.layout.on (t-1)) = 0 ∧ x (r.core.layout.on t) = 1
+
+/-- the unit switches off at step `t`: on → off, at step 0 "was running (`time_already_running > 0`) and is off" -/
+def StopsAt (r : CHPRP) (x : Vec) (t : Nat) : Prop :=
+  if t = 0 then r.core.tar ≠ 0 ∧ x (r.core.layout.on 0) = 0
+  else x (r.core.layout.on (t-1)) = 1 ∧ x (r.core.layout.on t) = 0
+
+/-- both flags of step `t` are exact transition indicators -/
+def FlagExactAt (r : CHPRP) (x : Vec) (t : Nat) : Prop :=
+  (x (r.core.layout.start t) = 1 ↔ StartsAt r x t) ∧ (x (r.shut t) = 1 ↔ StopsAt r x t)
+
+/-- the one deviation the rows admit: at the LAST step `T − 1 ≥ 1` both flags are 1 and nothing switches -/
+def FlagBothAt (r : CHPRP) (x : Vec) (t : Nat) : Prop :=
+  1 ≤ t ∧ t + 1 = r.core.T ∧ x (r.core.layout.on (t-1)) = x (r.core.layout.on t) ∧
+    x (r.core.layout.start t) = 1 ∧ x (r.shut t) = 1
+
+theorem b2r_eq_one (a : Bool) : b2r a = 1 ↔ a = true := by cases a <;> simp [b2r]
+theorem b2r_eq_zero (a : Bool) : b2r a = 0 ↔ a = false := by cases a <;> simp [b2r]
+theorem b2r_inj (a b : Bool) : b2r a = b2r b ↔ a = b := by cases a <;> cases b <;> simp [b2r]
+
+theorem flagOK_iff_x (r : CHPRP) (x : Vec) (onf stf shf : Nat → Bool)
+    (hon : ∀ t, t < r.core.T → x (r.core.layout.on t) = b2r (onf t))
+    (hst : ∀ t, t < r.core.T → x (r.core.layout.start t) = b2r (stf t))
+    (hsh : ∀ t, t < r.core.T → x (r.shut t) = b2r (shf t)) (t : Nat) (ht : t < r.core.T) :
+    FlagOK (ucp r.core) r.core.T onf stf shf t ↔ (FlagExactAt r x t ∨ FlagBothAt r x t) := by
+  unfold FlagOK FlagExactAt FlagBothAt StartsAt StopsAt
+  cases t with
+  | zero =>
+    rw [hon 0 ht, hst 0 ht, hsh 0 ht]
+    simp only [startOf, shutOf, if_true, b2r_eq_one, b2r_eq_zero]
+    have e : (ucp r.core).tar = r.core.tar := rfl
+    rw [e]
+    by_cases h0 : r.core.tar = 0 <;> cases stf 0 <;> cases shf 0 <;> cases onf 0 <;> simp [h0]
+  | succ s =>
+    rw [hon (s+1) ht, hon (s+1-1) (by omega), hst (s+1) ht, hsh (s+1) ht]
+    simp only [startOf, shutOf, Nat.succ_ne_zero, if_false, Nat.add_sub_cancel, b2r_eq_one, b2r_eq_zero, b2r_inj]
+    cases stf (s+1) <;> cases shf (s+1) <;> cases onf (s+1) <;> cases onf s <;> simp
+
+/-- every 0/1 point: the start / shutdown rows and the bounds of the flags hold iff every step's flags are exact
+    transition indicators, except possibly "both 1, nothing switches" at the last step -/
+theorem flag_rows_iff (r : CHPRP) (hwf : CommitWFP r) (x : Vec) (hb : Binary r x) :
+    ((∀ row ∈ r.startShutRows, row.Sat x) ∧
+     (∀ t, t < r.core.T → r.lower.getD (r.core.layout.start t) 0 ≤ x (r.core.layout.start t) ∧
+        x (r.core.layout.start t) ≤ r.upper.getD (r.core.layout.start t) 0) ∧
+     (∀ t, t < r.core.T → r.lower.getD (r.shut t) 0 ≤ x (r.shut t) ∧ x (r.shut t) ≤ r.upper.getD (r.shut t) 0)) ↔
+    ∀ t, t < r.core.T → (FlagExactAt r x t ∨ FlagBothAt r x t) := by
+  have hon : ∀ t, t < r.core.T → x (r.core.layout.on t) = b2r (decide (x (r.core.layout.on t) = 1)) :=
+    fun t ht => b2r_of_01 _ (hb t ht).1
+  have hst : ∀ t, t < r.core.T → x (r.core.layout.start t) = b2r (decide (x (r.core.layout.start t) = 1)) :=
+    fun t ht => b2r_of_01 _ (hb t ht).2.1
+  have hsh : ∀ t, t < r.core.T → x (r.shut t) = b2r (decide (x (r.shut t) = 1)) :=
+    fun t ht => b2r_of_01 _ (hb t ht).2.2
+  rw [P_flags r x _ _ _ hwf hon hst hsh]
+  refine (flagsF_iff (ucp r.core) r.core.T _ _ _ hwf.core.hT).trans ?_
+  constructor
+  · intro h t ht; exact (flagOK_iff_x r x _ _ _ hon hst hsh t ht).1 (h t ht)
+  · intro h t ht; exact (flagOK_iff_x r x _ _ _ hon hst hsh t ht).2 (h t ht)
+
+theorem startShutRows_sub (r : CHPRP) {row : Row} (h : row ∈ r.startShutRows) : row ∈ r.rows :=
+  commitRowsP_sub r (by simp [commitRowsP, h])
+
+theorem inBounds_start (hwf : CommitWFP r) (x : Vec) (hx : (assembleCHPP r).FeasibleRelaxed x) (t : Nat) (ht : t < r.core.T) :
+    r.lower.getD (r.core.layout.start t) 0 ≤ x (r.core.layout.start t) ∧
+      x (r.core.layout.start t) ≤ r.upper.getD (r.core.layout.start t) 0 :=
+  hx.1 _ (by show _ < r.lower.length; rw [lowerP_len hwf]; simp only [CHPLayout.start, startIdx_eq]; omega)
+
+theorem inBounds_shut (hwf : CommitWFP r) (x : Vec) (hx : (assembleCHPP r).FeasibleRelaxed x) (t : Nat) (ht : t < r.core.T) :
+    r.lower.getD (r.shut t) 0 ≤ x (r.shut t) ∧ x (r.shut t) ≤ r.upper.getD (r.shut t) 0 :=
+  hx.1 _ (by show _ < r.lower.length; rw [lowerP_len hwf]; simp only [CHPRP.shut, CHPRP.shutIdx, startIdx_eq]; omega)
+
+theorem inBounds_on (hwf : CommitWFP r) (x : Vec) (hx : (assembleCHPP r).FeasibleRelaxed x) (t : Nat) (ht : t < r.core.T) :
+    r.lower.getD (r.core.layout.on t) 0 ≤ x (r.core.layout.on t) ∧
+      x (r.core.layout.on t) ≤ r.upper.getD (r.core.layout.on t) 0 :=
+  hx.1 _ (by show _ < r.lower.length; rw [lowerP_len hwf]; simp only [CHPLayout.on]; omega)
+
+/-- feasible 0/1 points: at every step the flags are exact, except possibly "both 1" at the last step -/
+theorem flags_of_feasible (r : CHPRP) (hwf : CommitWFP r) (x : Vec) (hx : (assembleCHPP r).FeasibleRelaxed x)
+    (hb : Binary r x) (t : Nat) (ht : t < r.core.T) : FlagExactAt r x t ∨ FlagBothAt r x t :=
+  (flag_rows_iff r hwf x hb).1
+    ⟨fun row h => hx.2 row (startShutRows_sub r h), inBounds_start hwf x hx, inBounds_shut hwf x hx⟩ t ht
+
+/-- step 0 without any 0/1 hypothesis: `start_0 = on_0`, `shut_0 = 0` (was off) resp. `start_0 = 0`,
+    `shut_0 = 1 − on_0` (was running) -/
+theorem first_step_flags (r : CHPRP) (hwf : CommitWFP r) (x : Vec) (hx : (assembleCHPP r).FeasibleRelaxed x) :
+    (r.core.tar = 0 → x (r.core.layout.start 0) = x (r.core.layout.on 0) ∧ x (r.shut 0) = 0) ∧
+    (r.core.tar ≠ 0 → x (r.core.layout.start 0) = 0 ∧ x (r.shut 0) = 1 - x (r.core.layout.on 0)) := by
+  have hT := hwf.core.hT
+  have hs := inBounds_start hwf x hx 0 hT
+  have hq := inBounds_shut hwf x hx 0 hT
+  rw [lowerP_start hwf 0 hT, upperP_start hwf 0 hT] at hs
+  rw [lowerP_shut hwf 0 hT, upperP_shut hwf 0 hT] at hq
+  constructor
+  · intro h0
+    have := CHPProfile.first_flag_off r x hx h0
+    simp only [h0, true_and, if_true] at hq
+    exact ⟨this, by grind⟩
+  · intro h0
+    have := CHPProfile.first_flag_running r x hx h0
+    simp only [h0, ne_eq, not_false_eq_true, true_and, if_true] at hs
+    exact ⟨by grind, by grind⟩
+
+/-- every feasible point with 0/1 on / start / shutdown values has an on/off pattern that respects minimum
+    runtime (increased by the ramp lengths), minimum downtime and the initial state -/
+theorem feasible_imp_spec (r : CHPRP) (hwf : CommitWFP r) (x : Vec) (hx : (assembleCHPP r).FeasibleRelaxed x)
+    (hb : Binary r x) (on : List Bool) (hlen : on.length = r.core.T)
+    (hon : ∀ t, t < r.core.T → x (r.core.layout.on t) = b2r (on.getD t false)) :
+    MinUpDown (ucp r.core) on :=
+  commit_feasibleP_imp_spec r hwf on hlen
+    ⟨x, hon, fun t ht => (hb t ht).2.1, fun t ht => (hb t ht).2.2, fun row h => hx.2 row (commitRowsP_sub r h),
+     inBounds_on hwf x hx, inBounds_start hwf x hx, inBounds_shut hwf x hx⟩
+
+/-! ### well-formedness from a decidable check, and from the resolution -/
+
+theorem commitWF_of_ok (r : CHPR) (h : r.commitOK = true) : CommitWF r := by
+  simp only [CHPR.commitOK, Bool.and_eq_true, decide_eq_true_eq, Bool.or_eq_true, Bool.not_eq_true', List.all_eq_true,
+    beq_iff_eq, decide_eq_false_iff_not] at h
+  obtain ⟨⟨⟨⟨⟨⟨⟨⟨h1, h2⟩, h3⟩, h4⟩, h5⟩, h6⟩, h7⟩, h8⟩, h9⟩ := h
+  refine ⟨h1, h2, h3, h4, h5, ?_, ?_, ?_, ?_⟩
+  · intro hh m hm
+    rcases h6 with h6 | h6
+    · rw [hh] at h6; exact absurd h6 (by decide)
+    · exact h6 m hm
+  · intro hR; rcases h7 with h7 | h7
+    · exact absurd hR h7
+    · exact h7
+  · intro hD; rcases h8 with h8 | h8
+    · exact absurd hD h8
+    · exact h8
+  · intro hs; rcases h9 with h9 | h9
+    · rw [hs] at h9; exact absurd h9 (by decide)
+    · exact h9
+
+/-- decidable form of `CommitWFP` -/
+def commitOKP (r : CHPRP) : Bool := r.core.commitOK && r.core.incOn && r.core.incStart
+
+theorem commitWFP_of_ok (r : CHPRP) (h : commitOKP r = true) : CommitWFP r := by
+  simp only [commitOKP, Bool.and_eq_true] at h
+  exact ⟨commitWF_of_ok r.core h.1.1, h.1.2, h.2⟩
+
+theorem lateChecks_ok {r : CHPR} (h : chpLateChecks r = .ok ()) :
+    r.base.c.length = r.T ∧ r.base.l.length = r.T ∧ r.base.u.length = r.T ∧ r.base.mapping.length = r.T ∧
+    (r.heat = true → ∀ m ∈ r.base.mapping, m.kind = VarKind.d) := by
+  unfold chpLateChecks at h
+  simp only [bind, Except.bind, pure, Except.pure, throw, throwThe, MonadExceptOf.throw] at h
+  split at h
+  · simp at h
+  · split at h
+    · simp at h
+    · split at h
+      · simp at h
+      · split at h
+        · simp at h
+        · rename_i h1 h2 h3 h4
+          refine ⟨by omega, by omega, by omega, by omega, ?_⟩
+          intro hh m hm
+          have : ¬ (r.base.mapping.any fun m => m.kind != VarKind.d) = true := fun hc => h4 ⟨hh, hc⟩
+          simp only [List.any_eq_true, not_exists, not_and, bne_iff_ne, ne_eq, Decidable.not_not] at this
+          exact this m hm
+
+theorem resolveCHPP_wf {p : CHPP} {q : CHPProfP} {base : AssetProblem} {g : Grid} {prices : Prices} {u s : Nat}
+    {r : CHPRP} (h : resolveCHPP p q base g prices u s false = .ok (some r)) :
+    r.core.R = convertSteps p.minRuntime u s + (r.prof.S + r.prof.Q) ∧
+    r.core.D = convertSteps p.minDowntime u s ∧
+    r.core.tar = convertSteps p.timeAlreadyRunning u s ∧ r.core.tao = convertSteps p.timeAlreadyOff u s ∧
+    ((0 < r.prof.S ∨ 0 < r.prof.Q) → CommitWFP r) := by
+  unfold resolveCHPP at h
+  simp only [bind, Except.bind, pure, Except.pure] at h
+  cases hc : chpCtor p with
+  | error e => simp [hc] at h
+  | ok hf =>
+    simp only [hc] at h
+    cases hp : profCtor q with
+    | error e => simp [hp] at h
+    | ok sd =>
+      simp only [hp] at h
+      by_cases hT : g.T = 0
+      · simp [hT] at h
+      · simp only [hT, if_false] at h
+        split at h
+        · simp [throw, throwThe, MonadExceptOf.throw] at h
+        cases hv : chpVectors p g prices hf.1 hf.2 with
+        | error e => simp [hv] at h
+        | ok v =>
+          simp only [hv] at h
+          split at h
+          · simp at h
+          · simp only [Bool.false_eq_true, if_false] at h
+            split at h
+            · simp at h
+            · rename_i hlate
+              split at h
+              · simp [throw, throwThe, MonadExceptOf.throw] at h
+              · split at h
+                · simp [throw, throwThe, MonadExceptOf.throw] at h
+                · injection h with h
+                  injection h with h
+                  subst h
+                  refine ⟨rfl, rfl, rfl, rfl, ?_⟩
+                  intro hprof
+                  have hprof' : 0 < (mkProf q sd.fst sd.snd s u).S ∨ 0 < (mkProf q sd.fst sd.snd s u).Q := hprof
+                  generalize mkProf q sd.fst sd.snd s u = pr at *
+                  have hb : (decide (0 < pr.S) || decide (0 < pr.Q)) = true := by
+                    simp only [Bool.or_eq_true, decide_eq_true_eq]; exact hprof'
+                  rw [hb] at hlate ⊢
+                  obtain ⟨l1, l2, l3, l4, l5⟩ := lateChecks_ok (hlate.trans (by cases ‹Unit›; rfl))
+                  have hs : (mkCHPR p base g hf.fst hf.snd v u s (pr.S + pr.Q) true).incStart = true := by
+                    simp [mkCHPR]
+                  have ho : (mkCHPR p base g hf.fst hf.snd v u s (pr.S + pr.Q) true).incOn = true := by
+                    simp [mkCHPR]
+                  exact ⟨⟨Nat.pos_of_ne_zero hT, l2, l3, l1, l4, l5, fun _ => hs, fun _ => ho, fun _ => ho⟩, ho, hs⟩
+
+/-! ## (C) the heat-profile rows `heatProfRows` -/
+
+open EAO.CHPProfile (tsum tsum_append eval_eq_tsum startTerms_zero shutTerms_zero startTerms_one shutTerms_one
+  sat_of_memP capRows_mem)
+
+/-- P-1: heat-profile rows exist only with a heat node AND a shutdown heat lower profile — a start heat profile alone
+    is ignored -/
+theorem heatProfRows_nil (r : CHPRP) (h : r.core.heat = false ∨ r.prof.qlh = none) : r.heatProfRows = [] := by
+  unfold CHPRP.heatProfRows
+  rcases h with h | h
+  · rw [h]
+  · rw [h]; cases r.core.heat <;> rfl
+
+theorem heatProfRows_eq (r : CHPRP) (hh : r.core.heat = true) {qlh : List Rat} (hq : r.prof.qlh = some qlh) :
+    r.heatProfRows = r.capSteps.map (r.heatProfLower (r.prof.slh.getD []) qlh) ++
+      r.capSteps.map (r.heatProfUpper (r.prof.suh.getD []) (r.prof.quh.getD [])) := by
+  unfold CHPRP.heatProfRows
+  rw [hh, hq]
+
+theorem heatProfLower_mem (r : CHPRP) (hh : r.core.heat = true) {qlh : List Rat} (hq : r.prof.qlh = some qlh)
+    {i : Nat} (hi : i < r.core.n) (hf : r.firstCap ≤ i) : r.heatProfLower (r.prof.slh.getD []) qlh i ∈ r.rows := by
+  apply capRows_mem
+  simp only [CHPRP.capRows, heatProfRows_eq r hh hq, CHPRP.capSteps, List.mem_append, List.mem_map, List.mem_filter,
+    List.mem_range, decide_eq_true_eq]
+  exact Or.inl (Or.inr (Or.inl ⟨i, ⟨hi, hf⟩, rfl⟩))
+
+theorem heatProfUpper_mem (r : CHPRP) (hh : r.core.heat = true) {qlh : List Rat} (hq : r.prof.qlh = some qlh)
+    {i : Nat} (hi : i < r.core.n) (hf : r.firstCap ≤ i) :
+    r.heatProfUpper (r.prof.suh.getD []) (r.prof.quh.getD []) i ∈ r.rows := by
+  apply capRows_mem
+  simp only [CHPRP.capRows, heatProfRows_eq r hh hq, CHPRP.capSteps, List.mem_append, List.mem_map, List.mem_filter,
+    List.mem_range, decide_eq_true_eq]
+  exact Or.inl (Or.inr (Or.inr ⟨i, ⟨hi, hf⟩, rfl⟩))
+
+/-- reading of the lower heat-profile row: `heat_i ≥ Σ slh_j·start_{i−j} + Σ qlh_j·shut_{i+j+1}` -/
+theorem heatProfLower_sat (r : CHPRP) (slh qlh : List Rat) (x : Vec) (i : Nat) :
+    (r.heatProfLower slh qlh i).Sat x ↔
+      tsum (r.startTerms i (fun j => slh.getD j 0)) x + tsum (r.shutTerms i (fun j => qlh.getD j 0)) x ≤
+        x (r.core.layout.heat i) := by
+  have e1 : ∀ (f : Nat → Rat), tsum (r.startTerms i (fun j => 0 - f j)) x = - tsum (r.startTerms i f) x := by
+    intro f
+    simp only [tsum, CHPRP.startTerms, List.map_map, Function.comp_def]
+    induction ((List.range r.prof.S).filter fun j => decide (j ≤ i)) with
+    | nil => simp
+    | cons a l ih => simp only [List.map_cons, List.sum_cons, ih]; grind
+  have e2 : ∀ (f : Nat → Rat), tsum (r.shutTerms i (fun j => 0 - f j)) x = - tsum (r.shutTerms i f) x := by
+    intro f
+    simp only [tsum, CHPRP.shutTerms, List.map_map, Function.comp_def]
+    induction ((List.range r.prof.Q).filter fun j => decide (i + j + 1 < r.core.T)) with
+    | nil => simp
+    | cons a l ih => simp only [List.map_cons, List.sum_cons, ih]; grind
+  have : (r.heatProfLower slh qlh i).eval x =
+      x (r.core.layout.heat i) + tsum (r.startTerms i (fun j => 0 - slh.getD j 0)) x +
+        tsum (r.shutTerms i (fun j => 0 - qlh.getD j 0)) x := by
+    simp only [eval_eq_tsum, CHPRP.heatProfLower, tsum_append]
+    simp [tsum]; grind
+  show (0 : Rat) ≤ (r.heatProfLower slh qlh i).eval x ↔ _
+  rw [this, e1, e2]
+  constructor <;> intro h <;> grind
+
+/-- reading of the upper heat-profile row, `m = max_cap_i / conv_i`:
+    `heat_i ≤ m·on_i − Σ (m − suh_j)·start_{i−j} − Σ (m − quh_j)·shut_{i+j+1}` -/
+theorem heatProfUpper_sat (r : CHPRP) (suh quh : List Rat) (x : Vec) (i : Nat) :
+    (r.heatProfUpper suh quh i).Sat x ↔
+      x (r.core.layout.heat i) - r.core.maxCap i / r.core.cv i * x (r.core.layout.on (r.core.stepOff i)) +
+        tsum (r.startTerms i (fun j => r.core.maxCap i / r.core.cv i - suh.getD j 0)) x +
+        tsum (r.shutTerms i (fun j => r.core.maxCap i / r.core.cv i - quh.getD j 0)) x ≤ 0 := by
+  have : (r.heatProfUpper suh quh i).eval x =
+      x (r.core.layout.heat i) - r.core.maxCap i / r.core.cv i * x (r.core.layout.on (r.core.stepOff i)) +
+        tsum (r.startTerms i (fun j => r.core.maxCap i / r.core.cv i - suh.getD j 0)) x +
+        tsum (r.shutTerms i (fun j => r.core.maxCap i / r.core.cv i - quh.getD j 0)) x := by
+    simp only [eval_eq_tsum, CHPRP.heatProfUpper, tsum_append]
+    simp [tsum]; grind
+  show (r.heatProfUpper suh quh i).eval x ≤ 0 ↔ _
+  rw [this]
+
+section
+variable (r : CHPRP) (x : Vec) (hx : (assembleCHPP r).FeasibleRelaxed x) (hh : r.core.heat = true)
+  {qlh : List Rat} (hq : r.prof.qlh = some qlh) (i : Nat) (hi : i < r.core.n) (hf : r.firstCap ≤ i)
+include hx hh hq hi hf
+
+/-- in the `k`-th step after a start (exactly that start flag set, no shutdown flag, unit on) the HEAT lies within the
+    `k`-th entries of the start heat profile -/
+theorem heat_start_profile_bounds (k : Nat) (hk : k < r.prof.S) (hki : k ≤ i)
+    (hon1 : x (r.core.layout.on (r.core.stepOff i)) = 1) (hs : x (r.core.layout.start (i - k)) = 1)
+    (hs0 : ∀ j, j < r.prof.S → j ≤ i → j ≠ k → x (r.core.layout.start (i - j)) = 0)
+    (hq0 : ∀ j, j < r.prof.Q → i + j + 1 < r.core.T → x (r.shut (i + j + 1)) = 0) :
+    (r.prof.slh.getD []).getD k 0 ≤ x (r.core.layout.heat i) ∧ x (r.core.layout.heat i) ≤ (r.prof.suh.getD []).getD k 0 := by
+  have hl := (heatProfLower_sat r _ _ x i).mp (sat_of_memP hx (heatProfLower_mem r hh hq hi hf))
+  have hu := (heatProfUpper_sat r _ _ x i).mp (sat_of_memP hx (heatProfUpper_mem r hh hq hi hf))
+  rw [startTerms_one r x i _ k hk hki hs hs0, shutTerms_zero r x i _ hq0] at hl hu
+  rw [hon1] at hu
+  constructor <;> grind
+
+/-- `k + 1` steps before a shutdown the HEAT lies within the `k`-th entries of the shutdown heat profile -/
+theorem heat_shutdown_profile_bounds (k : Nat) (hk : k < r.prof.Q) (hkT : i + k + 1 < r.core.T)
+    (hon1 : x (r.core.layout.on (r.core.stepOff i)) = 1) (hqk : x (r.shut (i + k + 1)) = 1)
+    (hq0 : ∀ j, j < r.prof.Q → i + j + 1 < r.core.T → j ≠ k → x (r.shut (i + j + 1)) = 0)
+    (hs0 : ∀ j, j < r.prof.S → j ≤ i → x (r.core.layout.start (i - j)) = 0) :
+    qlh.getD k 0 ≤ x (r.core.layout.heat i) ∧ x (r.core.layout.heat i) ≤ (r.prof.quh.getD []).getD k 0 := by
+  have hl := (heatProfLower_sat r _ _ x i).mp (sat_of_memP hx (heatProfLower_mem r hh hq hi hf))
+  have hu := (heatProfUpper_sat r _ _ x i).mp (sat_of_memP hx (heatProfUpper_mem r hh hq hi hf))
+  rw [shutTerms_one r x i _ k hk hkT hqk hq0, startTerms_zero r x i _ hs0] at hl hu
+  rw [hon1] at hu
+  constructor <;> grind
+
+/-- outside the ramps (no flag the rows see is set): `0 ≤ heat_i ≤ (max_cap_i / conv_i)·on_i` -/
+theorem heat_outside_ramps
+    (hs0 : ∀ j, j < r.prof.S → j ≤ i → x (r.core.layout.start (i - j)) = 0)
+    (hq0 : ∀ j, j < r.prof.Q → i + j + 1 < r.core.T → x (r.shut (i + j + 1)) = 0) :
+    0 ≤ x (r.core.layout.heat i) ∧
+      x (r.core.layout.heat i) ≤ r.core.maxCap i / r.core.cv i * x (r.core.layout.on (r.core.stepOff i)) := by
+  have hl := (heatProfLower_sat r _ _ x i).mp (sat_of_memP hx (heatProfLower_mem r hh hq hi hf))
+  have hu := (heatProfUpper_sat r _ _ x i).mp (sat_of_memP hx (heatProfUpper_mem r hh hq hi hf))
+  rw [shutTerms_zero r x i _ hq0, startTerms_zero r x i _ hs0] at hl hu
+  constructor <;> grind
+
+end
 
 end EAO.CHPProfCommit
